@@ -225,6 +225,9 @@ def r8_visit(run, F):
 
 def check(run):
     F = run.facts("B")
+    # diagnostics planted in the later parts of a statement only surface if the resolver merges the errors of all parts (shared with C06.R7)
+    from props import c06 as _c06
+    _c06.r7_errors_merged(run, F)
     r1_balance(run, F)
     r2_reverse(run, F)
     r3_lookup(run, F)
